@@ -230,7 +230,7 @@ impl BitOps {
         #[cfg(target_arch = "x86_64")]
         if self.config.enable_bmi2 && self.features.has_bmi2 {
             unsafe {
-                _bzhi_u32(source, index)
+                _bzhi_u32(source, index.min(32))
             }
         } else if self.config.software_fallback {
             if index >= 32 {
@@ -259,7 +259,7 @@ impl BitOps {
         #[cfg(target_arch = "x86_64")]
         if self.config.enable_bmi2 && self.features.has_bmi2 {
             unsafe {
-                _bzhi_u64(source, index)
+                _bzhi_u64(source, index.min(64))
             }
         } else if self.config.software_fallback {
             if index >= 64 {
